@@ -777,8 +777,50 @@ func (h *supH) directed(emit func(string)) {
 	}
 }
 
+// directedExit: who decides the project exit code. `a` ends the project (exit_on_end) with code
+// 0 or 3 while `b` - carrying exit_on_end, exit_on_failure or nothing - is still running and is
+// terminated by the shutdown with a code of its own (143, or -1 after the kill timeout).
+func (h *supH) directedExit(emit func(string)) {
+	for _, code := range []int{0, 3} {
+		for _, victim := range []string{"e", "xf", "-"} {
+			for _, onsig := range []string{"143", "0"} {
+				bpol, bflags := "no", "-"
+				switch victim {
+				case "e":
+					bflags = "e"
+				case "xf":
+					bpol = "exit_on_failure"
+				}
+				emit("sup coarse 0")
+				emit("proc a no 0 e 0 0 0 -")
+				emit(fmt.Sprintf("proc b %s 0 %s 0 0 %s -", bpol, bflags, onsig))
+				emit("proc c no 0 - 0 0 0 -")
+				emit("init")
+				emit("s call 0 run")
+				h.drain(emit)
+				emit(fmt.Sprintf("s exit a %d", code))
+				h.drain(emit)
+				for i := 0; i < 8 && !h.dead; i++ {
+					al := h.aliveNames()
+					if len(al) == 0 {
+						break
+					}
+					emit(fmt.Sprintf("s exit %s 0", al[0]))
+					h.drain(emit)
+				}
+				if len(h.aliveNames()) == 0 && len(h.enabledKeys()) == 0 {
+					emit("end quiescent")
+				} else {
+					emit("end limit")
+				}
+			}
+		}
+	}
+}
+
 func (h *supH) Gen(r *rand.Rand, tier string, emit func(string)) {
 	h.directed(emit)
+	h.directedExit(emit)
 	scen, maxProcs, maxSteps := 120, 4, 120
 	if tier == "thorough" {
 		scen, maxProcs, maxSteps = 1500, 5, 200
